@@ -55,6 +55,19 @@ pub fn exec_case(w: &mut World, case: &Value) -> Value {
         };
         evs.push(json!({"e": "load", "fam": fam, "op": "append", "t": 0, "rules": [base]}));
     }
+    // an invalid sibling of the rule was given for the resource before (refused, changes nothing): what a
+    // loading call remembers of refused rules must never come back through a later call
+    if !case["populated"].as_bool().unwrap_or(false) && case["op"] == "append" && fam != "sys" {
+        let mut bad = case["rule"].clone();
+        bad["id"] = json!("bad");
+        match fam {
+            "flow" => bad["thr"] = json!([-1, 1]),
+            "iso" => bad["thr"] = json!(0),
+            "hot" => { bad["metric"] = json!("qps"); bad["dur"] = json!(0); }
+            _ => bad["I"] = json!(0),
+        }
+        evs.push(json!({"e": "load", "fam": fam, "op": "res", "res": "r1", "t": 0, "rules": [bad]}));
+    }
     let load_idx = evs.len();
     evs.push(json!({"e": "load", "fam": fam, "op": case["op"], "res": case["res"], "t": 0, "rules": [case["rule"]]}));
     let first_entry = evs.len();
@@ -83,6 +96,30 @@ pub fn exec_case(w: &mut World, case: &Value) -> Value {
             t += 2;
         }
     }
+    // the rule is replaced, through another loading call, by a variant with the other control strategy /
+    // breaker strategy / threshold while its counters are in use: the same requests again, at once
+    {
+        let mut var = case["rule"].clone();
+        var["id"] = json!("var");
+        match fam {
+            "flow" | "hot" => var["ctl"] = json!(if var.get("ctl").and_then(|x| x.as_str()).unwrap_or("reject") == "reject" { "throttling" } else { "reject" }),
+            "cb" => var["strat"] = json!(if var.get("strat").and_then(|x| x.as_str()).unwrap_or("slow") == "ecount" { "eratio" } else { "ecount" }),
+            _ => var["thr"] = json!(7),
+        }
+        let op2 = if case["op"] == "all" { "res" } else { "all" };
+        t += 5;
+        evs.push(json!({"e": "load", "fam": fam, "op": op2, "res": "r1", "t": t, "rules": [var]}));
+        for k in [2usize, 6, 3, 0] {
+            let mut e = entry_shapes()[k].clone();
+            id += 1;
+            e["e"] = json!("enter");
+            e["id"] = json!(id);
+            e["t"] = json!(t);
+            evs.push(e);
+            evs.push(json!({"e": "exit", "id": id, "t": t + 1}));
+        }
+        t += 2;
+    }
     evs.push(json!({"e": "health", "t": t + 100}));
     let out = w.exec(&evs);
     let mut c = case.clone();
@@ -94,7 +131,15 @@ pub fn exec_case(w: &mut World, case: &Value) -> Value {
     }
     let mut entries = Vec::new();
     let mut i = first_entry;
-    while i + 1 < out.len() && out[i]["e"] == "enter" {
+    while i + 1 < out.len() {
+        if out[i]["e"] != "enter" {
+            // the second loading call: it must not panic either
+            if out[i].get("panic").is_some() || out[i].get("panic_after").is_some() {
+                entries.push(json!({"r": "panic", "exit": "ok", "bt": "load"}));
+            }
+            i += 1;
+            continue;
+        }
         let ex = if out[i + 1].get("panic").is_some() { "panic" } else { "ok" };
         entries.push(json!({"r": out[i]["r"], "exit": ex, "bt": out[i].get("bt").cloned().unwrap_or(json!(""))}));
         i += 2;
